@@ -462,6 +462,20 @@ def make_accept(kind, accept_tail, n):
     return q
 
 
+def make_accept_after(kind, n):
+    """the same application first answers the OTHER kind of client (JSON vs HTML) for the same failing URL, then the
+    client that is judged: the representation must follow the Accept header of each request"""
+    neutral = {False: NeutralPage(kind, "qs"), True: NeutralPage(kind, "qs", JSON)}
+
+    def q(s: str, want_json: bool):
+        printable(s, 1, n)
+        app = build_app(kind)
+        serve(app, environ_for(kind, "qs", s, None if want_json else JSON))
+        calls, body = serve(app, environ_for(kind, "qs", s, JSON if want_json else None))
+        return response_failure(kind, neutral[bool(want_json)], calls, body, s, want_json)
+    return q
+
+
 def make_json_text(pos, n):
     """a JSON error body that carries request text (message of the handler's exception, traceback)"""
     neutral = NeutralPage("500text", pos, JSON)
@@ -535,6 +549,13 @@ def queries(tier):
                          % (kind, JSON, accept_tail, where("qs", "plain", n)),
                          timeout=150 if T else 60, expect_cover=["html-page"], family="accept",
                          config={"kind": kind, "accept_tail": accept_tail, "n": n}))
+    # the same application answers the other kind of client for the same URL first
+    for kind in (("404", "405") if not T else ("404", "405", "500", "400")):
+        n = 1
+        out.append(Q("accept-after/%s" % kind, make_accept_after(kind, n),
+                     "%s response to the judged client after the same application answered the other kind of client (JSON vs "
+                     "HTML) for the same URL; want_json (bool); %s" % (kind, where("qs", "plain", n)),
+                     timeout=150, expect_cover=["html-page"], family="accept-after", config={"kind": kind, "n": n}))
     # Accept: application/json on the kinds whose page does not depend on it: whatever comes back must be safe
     for kind, pos in (("400", "qs"), ("400after", "qs"), ("critical", "path")):
         n = 2 if T or kind == "critical" else 1
